@@ -475,7 +475,11 @@ func visitInstr(fr *frame, instr ssa.Instruction) continuation {
 		if m, ok := fr.get(instr.X).(*omap); ok && m != nil {
 			i.guardCheckObj(m, false)
 		}
-		fr.env[instr] = rangeIter(fr.get(instr.X), instr.X.Type())
+		it := rangeIter(fr.get(instr.X), instr.X.Type())
+		if b, ok := it.(*bstrIter); ok {
+			b.i = i
+		}
+		fr.env[instr] = it
 
 	case *ssa.Next:
 		fr.env[instr] = fr.get(instr.Iter).(iter).next()
@@ -518,7 +522,11 @@ func visitInstr(fr *frame, instr ssa.Instruction) continuation {
 			idx := i.index(fr.get(instr.Index), len(x))
 			fr.env[instr] = x[idx]
 		case symstr:
-			unsupported("indexing a symbolic string")
+			ts, ok := bstrTerms(x)
+			if !ok {
+				unsupported("indexing a symbolic string")
+			}
+			fr.env[instr] = byteVal(ts[i.index(fr.get(instr.Index), len(ts))])
 		default:
 			panic(fmt.Sprintf("unexpected x type in Index: %T", x))
 		}
@@ -530,7 +538,11 @@ func visitInstr(fr *frame, instr ssa.Instruction) continuation {
 			idx := i.index(fr.get(instr.Index), len(xs))
 			fr.env[instr] = xs[idx]
 		case symstr:
-			unsupported("indexing a symbolic string")
+			ts, ok := bstrTerms(xs)
+			if !ok {
+				unsupported("indexing a symbolic string")
+			}
+			fr.env[instr] = byteVal(ts[i.index(fr.get(instr.Index), len(ts))])
 		default:
 			if m, ok := x.(*omap); ok && m != nil {
 				i.guardCheckObj(m, false)
